@@ -44,6 +44,13 @@ func TestRepeat(t *testing.T) {
 			}
 			if firstO == nil {
 				firstO = o
+				if os.Getenv("C15_DUMP") != "" {
+					for _, l := range o.Lines {
+						if strings.HasPrefix(l, os.Getenv("C15_DUMP")) {
+							fmt.Println(trunc(l, 200))
+						}
+					}
+				}
 			}
 			seen[h]++
 		}
